@@ -136,6 +136,7 @@ struct HarnessBase {
   virtual void make_reader(std::string const& fmt, std::istream& in) = 0;
   virtual void make_writer(std::string const& fmt, std::ostream& out, std::string const& version) = 0;
   virtual void copy_to(std::vector<size_t> const& sizes) = 0;
+  virtual void copy_from(std::istream& in2, std::vector<size_t> const& sizes) = 0;
   virtual void close_reader() = 0;
   virtual void close_writer() = 0;
   virtual void flush_writer() = 0;
@@ -215,6 +216,11 @@ static json run_one(json const& run, std::vector<std::string> const& inputs) {
           else if (what == "CR") h->close_reader();
           else if (what == "CW") h->close_writer();
           else if (what == "FW") h->flush_writer();
+          else if (what == "CT") {
+            // CopyTo of a second, fresh binary reader over the intact stream into the writer under test, whatever state that is in
+            SimInBuf b2(inputs.at(0), 0, 1); std::istream in2(&b2);
+            h->copy_from(in2, std::vector<size_t>(16, c.size() > 1 ? c[1].get<size_t>() : 1));
+          }
           else if (what == "ARM") h->arm(true);
           else if (what == "DISARM") h->arm(false);
           else { cr["r"] = "exc"; cr["what"] = "unknown op"; }
@@ -308,6 +314,7 @@ def emit_harness(ns, versions, protos, copyto) -> str:
         nb = copyto[pname]
         args = "".join(", sizes.size() > %d ? sizes[%d] : 1" % (j, j) for j in range(nb))
         out.append("  void copy_to(std::vector<size_t> const& sizes) override { (void)sizes; reader->CopyTo(*writer%s); }" % args)
+        out.append("  void copy_from(std::istream& in2, std::vector<size_t> const& sizes) override { (void)sizes; %s::binary::%sReader r2(in2); r2.CopyTo(*writer%s); r2.Close(); }" % (ns, pname, args))
         out.append("  void close_reader() override { reader->Close(); }")
         out.append("  void close_writer() override { writer->Close(); }")
         out.append("  void flush_writer() override { writer->Flush(); }")
